@@ -81,6 +81,9 @@ EDGES = {
     # a flattened map with a user type as value; two types of one file whose names differ only in case
     "flatten_map": "pub struct R§ { #[ts(flatten)] pub m: BTreeMap<String, M§>, pub z: i32 }",
     "case_twins": "pub struct R§ { pub a: Cs§, pub b: CS§ }",
+    # deep graphs: a chain of 40 types; a type reached both through a chain of 15 (16 levels below the root) and directly
+    "deep_chain": "pub struct R§ { pub chain: J01§ }",
+    "deep_diamond": "pub struct R§ { pub chain: K01§, pub shared: KS§ }",
 }
 
 # What each root refers to, read off its source above the way the documentation describes dependencies:
@@ -140,18 +143,30 @@ EDGE_DEPS = {
     "same_tail_specifiers": (["SA", "SB"], []),
     "flatten_map": ([], ["M"]),          # the inline form of a map inlines its value type
     "case_twins": (["Cs", "CS"], []),
+    "deep_chain": (["J01"], []),
+    "deep_diamond": (["K01", "KS"], []),
 }
 HELPER_DEPS = {"D": ([], []), "E": ([], []), "G": ([], []), "M": (["D", "E"], []), "C": (["R", "D"], []), "S1": (["D"], []),
                "S2": (["E", "S1"], []), "FE": (["D", "E"], []), "LA": ([], []), "LB": ([], []), "UA": (["LA"], []), "UB": (["LB"], []),
                "UC": (["LA", "LB"], []), "GD": ([], ["G"]), "GP": ([], []),
                "SA": (["DN"], []), "SB": (["DF"], []), "DN": ([], []), "DF": ([], []),
-               "Cs": (["D"], []), "CS": (["E"], [])}
+               "Cs": (["D"], []), "CS": (["E"], []), "KS": (["D"], [])}
+CHAIN_J, CHAIN_K = 40, 15
+for _k in range(1, CHAIN_J + 1):
+    HELPER_DEPS["J%02d" % _k] = (["J%02d" % (_k + 1)] if _k < CHAIN_J else ["D"], [])
+for _k in range(1, CHAIN_K + 1):
+    HELPER_DEPS["K%02d" % _k] = (["K%02d" % (_k + 1)] if _k < CHAIN_K else ["KS"], [])
+DEEP_ITEMS = (["#[derive(TS)] pub struct J%02d§ { pub next: %s }" % (_k, "J%02d§" % (_k + 1) if _k < CHAIN_J else "D§") for _k in range(1, CHAIN_J + 1)] +
+              ["#[derive(TS)] pub struct K%02d§ { pub next: %s }" % (_k, "K%02d§" % (_k + 1) if _k < CHAIN_K else "KS§") for _k in range(1, CHAIN_K + 1)] +
+              ["#[derive(TS)] pub struct KS§ { pub leaf: D§ }"])
 # export_to of the helper items that have one
 HELPER_PLACES = {"S1": "pair§.ts", "S2": "pair§.ts", "LA": "leaves§.ts", "LB": "leaves§.ts", "UA": "users§.ts", "UB": "users§.ts", "UC": "users§.ts",
                  "SA": "tail§/shared§.ts", "SB": "tail§/shared§.ts", "DN": "tail§/dep§.ts", "DF": "dep§.ts",
                  "Cs": "case§.ts", "CS": "case§.ts"}
 DPLACES = {"default": "", "dir": '#[ts(export_to = "sub/")]', "file": '#[ts(export_to = "custom/file§.ts")]', "nested": '#[ts(export_to = "a/b/")]',
            "escape": '#[ts(export_to = "../esc§/D§.ts")]', "dotted": '#[ts(export_to = "x.y/d.ts/")]', "same_as_root": '#[ts(export_to = "both§.ts")]',
+           # ... in one file whose name does not end in .ts (the file form is taken verbatim)
+           "same_as_root_mts": '#[ts(export_to = "both§.mts")]',
            "same_dotdot": '#[ts(export_to = "sub§/../both§.ts")]',
            # export_to given by an expression (a constant, a function call) instead of a literal
            # the TypeScript name given by an expression (not a literal): the file is named after it
@@ -177,6 +192,8 @@ def case_unit(n, case):
         dp = rp = '#[ts(export_to = "both%s.ts")]' % g
     if case["dplace"] == "same_dotdot":
         dp, rp = '#[ts(export_to = "sub%s/../both%s.ts")]' % (g, g), '#[ts(export_to = "both%s.ts")]' % g
+    if case["dplace"] == "same_as_root_mts":
+        dp = rp = '#[ts(export_to = "both%s.mts")]' % g
     items = [
         "#[derive(TS)] %s pub struct D§ { pub v: i32 }" % dp,
         "#[derive(TS)] pub struct E§ { pub w: String }",
@@ -199,8 +216,10 @@ def case_unit(n, case):
         '#[derive(TS)] #[ts(export_to = "users§.ts")] pub struct UA§ { pub a: LA§ }',
         '#[derive(TS)] #[ts(export_to = "users§.ts")] pub struct UB§ { pub b: Option<LB§> }',
         '#[derive(TS)] #[ts(export_to = "users§.ts")] pub struct UC§ { pub a: Vec<LA§>, pub b: LB§ }',
-        "#[derive(TS)] %s %s" % (rp, EDGES[case["edge"]]),
     ]
+    if case["edge"].startswith("deep_"):
+        items += DEEP_ITEMS
+    items.append("#[derive(TS)] %s %s" % (rp, EDGES[case["edge"]]))
     src = " ".join(items).replace("§", g)
     root_ty = "R%s" % g
     if case["edge"] == "param_default":
@@ -229,7 +248,7 @@ def export_cases(tier, esm, stats, sandbox, twice=False, extra_dplaces=()):
     holds a few unrelated files.  -> (units, observations, {unit: result}, {unit: tree before})"""
     cfgp = os.path.join(vlib.TMP, "graphs-cfg.json")
     q = tier == "quick"
-    dplaces = [x for x in DPLACES if x not in ("file_noext", "file_other_ext") and (twice or x != "above_cwd")] if not q else ["default", "dir", "file", "escape", "same_as_root", "same_dotdot", "expr_dir", "expr_file", "renamed_expr", "renamed_expr_dir"] + (["above_cwd"] if twice else [])
+    dplaces = [x for x in DPLACES if x not in ("file_noext", "file_other_ext") and (twice or x != "above_cwd")] if not q else ["default", "dir", "file", "escape", "same_as_root", "same_as_root_mts", "same_dotdot", "expr_dir", "expr_file", "renamed_expr", "renamed_expr_dir"] + (["above_cwd"] if twice else [])
     dplaces = dplaces + [x for x in extra_dplaces if x not in dplaces]
     rplaces = list(RPLACES) if not q else ["default", "nested_file", "escape"]
     dirs = list(DIRS) if not q else ["relative", "absolute"]
@@ -283,7 +302,7 @@ def run_mode(tier, esm, v, stats, prop=PROP, payload="BAD"):
             files, okparse = [], True
             tree = snapshot(d)
             for rel, text in sorted(tree.items()):
-                if not rel.endswith(".ts") or rel in PRE_EXISTING:
+                if not (rel.endswith(".ts") or rel.endswith(".mts")) or rel in PRE_EXISTING:
                     continue
                 try:
                     m = tsparse.parse_module(text)
